@@ -1,4 +1,5 @@
 import RimuModel.Block
+import RimuModel.Cli
 
 /-!
 # Line-protocol driver for the model (`rimumodel`)
@@ -127,6 +128,7 @@ open Wire
 structure DriverState where
   session : Session := Session.uninit
   table : List (Str × Nat × CompileResult) := []
+  resources : List (Str × Str) := []
   fuel : Nat := 100000
 
 def DriverState.env (d : DriverState) : Env :=
@@ -237,6 +239,23 @@ def handle (d : DriverState) (line : String) : DriverState × String :=
       | "search" => (d, showMatch (p.search text ((sstr 5).toNat?.getD 0)))
       | "match" => (d, showMatch (p.matchStart text))
       | _ => (d, "error\tunknown re op")
+  | "resource" => ({ d with resources := (str 1, str 2) :: d.resources }, "ok")
+  | "rimuc" =>
+    let split (s : Str) (sep : Char) : List Str := if s.isEmpty then [] else splitChar s sep
+    let argv := split (str 1) (Char.ofNat 31)
+    let files := (split (str 4) (Char.ofNat 31)).map fun e =>
+      match splitChar e (Char.ofNat 30) with
+      | [n, c] => (n, c)
+      | n :: _ => (n, [])
+      | [] => ([], [])
+    let env : CliEnv := { files := files, stdin := str 2, resources := d.resources, rimurcPath := str 3 }
+    let r := cliMain d.env d.fuel env argv
+    let (on, oc) := match r.outfile with | some (n, c) => (n, c) | none => ([], [])
+    match r.raised with
+    | some (.needCompile p f) => (d, showErr (.needCompile p f))
+    | some (.unsupportedRegex p) => (d, showErr (.unsupportedRegex p))
+    | _ =>
+    (d, "cli\t" ++ toString r.exit ++ "\t" ++ escape r.stdout ++ "\t" ++ escape r.stderr ++ "\t" ++ escape on ++ "\t" ++ escape oc)
   | "quotesre" =>
     (d, showMatch ((quotesRe d.session.quoteDefs).search (str 1) ((sstr 2).toNat?.getD 0)))
   | other => (d, "error\tunknown op " ++ other)
